@@ -36,7 +36,7 @@ class Monitor(object):
         self.tables = {}
         wdir = os.path.join(core.REPO, 'athlib', 'wma')
         for y in (2015, 2023):
-            with open(os.path.join(wdir, 'wma-data-%d.json' % y)) as f:
+            with open(os.path.join(wdir, 'wma-data-%d.json' % y), encoding='utf-8') as f:
                 self.tables[y] = json.load(f)
         self.running = {}
         for y in (2015, 2023):
